@@ -516,10 +516,20 @@ fn plan() -> BoxedStrategy<Plan> {
             }
             if same_key {
                 let k = transfers[0].clone();
-                for t in transfers.iter_mut().skip(1) {
+                for (i, t) in transfers.iter_mut().enumerate().skip(1) {
                     t.endpoint = k.endpoint;
                     t.method = k.method;
                     t.path = k.path.clone();
+                    if (r as usize + i) % 3 == 0 {
+                        // the resource changed its content but not its length,
+                        // code or options (body_seed differs)
+                        t.body_len = k.body_len;
+                        t.code = k.code;
+                        t.options = k.options.clone();
+                        if t.body_seed == k.body_seed {
+                            t.body_seed = k.body_seed.wrapping_add(1);
+                        }
+                    }
                 }
             }
             let lo = transfers.iter().map(|t| t.min_budget()).max().unwrap();
